@@ -45,7 +45,7 @@ def required_cells(tier):
             "action:store_split", "action:extend_match", "extend_match:override", "extend_match:no-override", "rule:two-flags",
             "pass-with-modes", "user-extends-builtin", "user-redefines-as-alias", "implicit==explicit", "alias==target",
             "repeat-parse", "implicit-option:attached-value", "builtin:gcc", "builtin:clang", "builtin:icx", "builtin:nvcc", "e2e:_OPENMP", "e2e:__CUDA_ARCH__",
-            "e2e:__SYCL_DEVICE_ONLY__", "e2e:passes-differ-in-include-files", "unknown-compiler"]
+            "e2e:__SYCL_DEVICE_ONLY__", "e2e:passes-differ-in-include-files", "unknown-compiler", "e2e:passes-differ-in-include-paths"]
 
 
 # ------------------------------------------------------------------ TOML --
@@ -522,10 +522,12 @@ E2E_USER = {
             "parser": [{"flags": ["-foffload", "--offload"], "action": "store_split", "sep": ",", "format": "off-$value", "dest": "passes"},
                        {"flags": ["-fextra"], "action": "append_const", "dest": "modes", "const": "extra"}],
             "modes": [{"name": "extra", "include_files": ["m.h"], "include_paths": ["modeinc"]}],
-            # each pass also brings its own search directory holding a header of the same name
-            "passes": [{"name": "off-a", "include_files": ["a.h"], "include_paths": ["pa"]},
-                       {"name": "off-b", "include_files": ["b.h"], "include_paths": ["pb"]},
-                       {"name": "off-c", "include_files": ["b.h"], "defines": ["TARGET_C"], "include_paths": ["pb"]}]},
+            # off-a / off-b differ only in their include files; off-d / off-e only in their search directory, which
+            # holds a header of the same name
+            "passes": [{"name": "off-a", "include_files": ["a.h"]}, {"name": "off-b", "include_files": ["b.h"]},
+                       {"name": "off-c", "include_files": ["b.h"], "defines": ["TARGET_C"]},
+                       {"name": "off-d", "defines": ["WITH_PH"], "include_paths": ["pa"]},
+                       {"name": "off-e", "defines": ["WITH_PH"], "include_paths": ["pb"]}]},
 }
 E2E_USER_SRC = """cbi_m_u_1;
 #ifdef TARGET_A
@@ -544,7 +546,7 @@ cbi_m_u_12;
 #if !defined(TARGET_A) && !defined(TARGET_B)
 cbi_m_u_16;
 #endif
-#if defined(TARGET_A) || defined(TARGET_B)
+#ifdef WITH_PH
 #include <ph.h>
 #endif
 #ifdef PH_A
@@ -572,7 +574,8 @@ def end_to_end_user(ctx, config, builtin, work):
     compilers = ccmodel.merge(builtin, E2E_USER)
     src = os.path.join(d, "src.c")
     cmds = [["occ"], ["occ", "-foffload=a,b"], ["occ", "--offload=b"], ["occ", "-foffload=a", "-fextra"], ["occ", "-foffload=c,b"],
-            ["occ", "-fextra"], ["occ", "-foffload=b,a", "-DX"]]
+            ["occ", "-fextra"], ["occ", "-foffload=b,a", "-DX"], ["occ", "-foffload=d,e"], ["occ", "-foffload=e,d"],
+            ["occ", "-foffload=a,d"], ["occ", "--offload=e", "-fextra"]]
     for i, cmd in enumerate(cmds):
         if not ctx.mine(i):
             continue
@@ -603,7 +606,8 @@ def end_to_end_user(ctx, config, builtin, work):
         if problems:
             acc.violated({"input": {"entries": entries}, "witness": {"entries": entries, "problems": problems}}, cells={"e2e:passes-differ-in-include-files"}, cls="e2e")
         else:
-            acc.held(cells={"e2e:passes-differ-in-include-files"}, cls="e2e", nontrivial={"entries": entries})
+            acc.held(cells={"e2e:passes-differ-in-include-files"} | ({"e2e:passes-differ-in-include-paths"} if "d,e" in str(cmd) or "e,d" in str(cmd) else set()),
+                     cls="e2e", nontrivial={"entries": entries})
 
 
 def run_shard(ctx):
